@@ -108,7 +108,7 @@ class C01(Spec):
                    '(counted in the evidence)']
 
     def gen(self, tier, rng):
-        n = 170 if tier == 'quick' else 2000
+        n = 120 if tier == 'quick' else 2000
         nextra = 6 if tier == 'quick' else 14
         cases = []
         for k in range(n):
@@ -117,7 +117,7 @@ class C01(Spec):
             cases.append({'spec': spec, 'cfgs': configs(spec, rng, nextra), 'kind': spec_kind(spec)})
         # responses that are (anti-)parallel multiples of other responses, upstream sub-group solver with
         # rhs_checking (linear-solution cache)
-        for k in range(40 if tier == 'quick' else 400):
+        for k in range(30 if tier == 'quick' else 400):
             spec = sg.gen_valid_rhs_spec(rng)
             cases.append({'spec': spec, 'cfgs': rhs_configs(spec, rng, nextra + 2), 'kind': 'rhs-chain'})
         return cases
